@@ -45,7 +45,7 @@ theorem foldl_addDef_ofStructs : ∀ (ss : List CStruct) (F : File),
   | s :: ss, F => by
     simp only [List.map_cons, List.foldl_cons, foldl_addDef_ofStructs ss]
     simp [addDef, addDefC, CTop.ofStruct, cstructOf, fieldOfC, docOf, joinLines, depMsgOf, ftOf, wrapArr, opVal,
-      Function.comp_def]
+      Function.comp_def, tagsOf]
 
 /-- the denotation of the first sub-language is the denotation of its embedding -/
 theorem denote_ofStructs (ss : List CStruct) : denote (ss.map CTop.ofStruct) = fileOf ss := by
@@ -57,7 +57,11 @@ theorem noDocAfterConst_ofStructs : ∀ (ss : List CStruct), noDocAfterConst (ss
   | s :: s' :: r => ⟨fun _ => rfl, noDocAfterConst_ofStructs (s' :: r)⟩
 
 theorem cfileOk_ofStructs (ss : List CStruct) (h : ∀ s ∈ ss, CStructOk s) : CFileOk (ss.map CTop.ofStruct) := by
-  refine ⟨?_, noDocAfterConst_ofStructs ss⟩
+  have hmoved : ∀ d ∈ ss.map CTop.ofStruct, d.d.noMovedComments := by
+    intro d hd
+    obtain ⟨s, _, rfl⟩ := List.mem_map.1 hd
+    trivial
+  refine ⟨⟨?_, noDocAfterConst_ofStructs ss⟩, hmoved⟩
   intro d hd
   obtain ⟨s, hs, rfl⟩ := List.mem_map.1 hd
   have hs' := h s hs
